@@ -31,16 +31,23 @@ import (
 // instead of using the MSAT array, in the same way that any other stream works.
 func (r *ComDoc) readShortSAT() error {
 	count := r.SectorSize / 4
-	sat := make([]SecID, count*int(r.Header.SSATSectorCount))
-	position := 0
-	for sector := r.Header.SSATNextSector; sector >= 0; sector = r.SAT[sector] {
-		if position >= len(sat) {
+	limit := int64(count) * int64(r.Header.SSATSectorCount)
+	var sat []SecID
+	chunk := make([]SecID, count)
+	steps := 0
+	for sector := r.Header.SSATNextSector; sector >= 0; {
+		if int64(len(sat)) >= limit {
 			return errors.New("ssat has more sectors than indicated")
 		}
-		if err := r.readSectorStruct(sector, sat[position:position+count]); err != nil {
+		if err := r.readSectorStruct(sector, chunk); err != nil {
 			return err
 		}
-		position += count
+		sat = append(sat, chunk...)
+		next, err := chainNext(r.SAT, sector, &steps)
+		if err != nil {
+			return err
+		}
+		sector = next
 	}
 	r.SSAT = sat
 	return nil
@@ -85,9 +92,20 @@ func (r *ComDoc) writeShortSAT() error {
 func (r *ComDoc) readShortSector(shortSector SecID, buf []byte) (int, error) {
 	// figure out which big sector holds the short sector
 	bigSectorIndex := int(shortSector) * r.ShortSectorSize / r.SectorSize
+	if shortSector < 0 {
+		return 0, errBadChain
+	}
 	bigSectorID := r.Files[r.rootStorage].NextSector
+	steps := 0
 	for i := 0; i < bigSectorIndex; i++ {
-		bigSectorID = r.SAT[bigSectorID]
+		next, err := chainNext(r.SAT, bigSectorID, &steps)
+		if err != nil {
+			return 0, err
+		}
+		bigSectorID = next
+	}
+	if bigSectorID < 0 {
+		return 0, errBadChain
 	}
 	// translate to a file position
 	n := r.sectorToOffset(bigSectorID)
